@@ -21,6 +21,10 @@ namespace c15
         virtual ~isline() {}
         virtual int putchar(uint8_t c) = 0;
         virtual int newdata(const std::string &d, bool &has_ret) = 0;
+        // sline_newdata(data, n) with the length exactly as given (C: int, may be negative; C++: size_t, n >= 0)
+        virtual int newdata_n(const std::string &d, int n, bool &has_ret) = 0;
+        virtual bool clear() = 0;                                     // igris::sline::clear (false: no such call in this family)
+        virtual bool set_size_cursor(unsigned len, unsigned cur) = 0; // igris::sline::set_size_and_cursor
         virtual int backspace(unsigned n) = 0;
         virtual int del(unsigned n) = 0;
         virtual int left() = 0;
@@ -42,6 +46,8 @@ namespace c15
         virtual unsigned cursor() = 0;
         virtual std::string text() = 0;
         virtual std::string tail() = 0;      // " H<head>,<cur>,<state>,<hist-hex>" or ""
+        virtual int linecpy(char *dst, size_t maxlen) = 0;   // readline_linecpy / igris::readline::linecpy
+        virtual int state() = 0;             // escape automaton state (READLINE_STATE_*)
     };
 
     struct ivterm
@@ -51,6 +57,8 @@ namespace c15
         std::vector<ev> evs;
         virtual void init_step() = 0;
         virtual void key(uint8_t c) = 0;
+        virtual int state() = 0;             // terminal automaton state
+        virtual int rlstate() = 0;           // its readline's escape automaton state
         virtual unsigned len() = 0;
         virtual unsigned cursor() = 0;
         virtual std::string text() = 0;
